@@ -6,6 +6,7 @@
 
 #include "corecel/io/Logger.hh"
 #include "core/Driver.hh"
+namespace vsim { int cmd_vet_geo(std::string const& file); }
 
 // Sanitizer defaults: classify sanitizer hits by exit code, no leak checking
 extern "C" __attribute__((used, visibility("default"))) char const* __asan_default_options()
@@ -105,6 +106,8 @@ int main(int argc, char** argv)
         return cmd_replay(file, opt);
     if (cmd == "plan")
         return cmd_plan(opt, index);
+    if (cmd == "vet-geo")
+        return vsim::cmd_vet_geo(file);
     usage();
     return 2;
 }
